@@ -8,11 +8,11 @@ import hashlib, json, os, re, shutil, subprocess, sys, time, glob
 VERIF = os.path.dirname(os.path.dirname(os.path.dirname(os.path.abspath(__file__))))
 REPO = os.environ.get("VERIF_REPO", "/repo")
 BUILD = os.path.join(VERIF, ".build")
-WORK = os.path.join(VERIF, ".work")
+WORK = os.environ.get("VERIF_WORK") or os.path.join(VERIF, ".work")
 SPEC = os.path.join(VERIF, "spec")
 HARNESS = os.path.join(VERIF, "harness")
-EVID = os.path.join(VERIF, "evidence")
-REPLAYS = os.path.join(VERIF, "replays")
+EVID = os.environ.get("VERIF_EVID") or os.path.join(VERIF, "evidence")
+REPLAYS = os.environ.get("VERIF_REPLAYS") or os.path.join(VERIF, "replays")
 GUARD = "LIBERASURECODE_VERIF"
 NCPU = os.cpu_count() or 4
 
@@ -49,7 +49,11 @@ VARIANTS = {
     "plain": ("-g -O2", True, True),
     "nosse": ("-g -O2", True, False),
     "tsan":  ("-g -O1 -fsanitize=thread", False, True),
+    # the repository's own compiler and optimisation level (configure: gcc -O2): undefined behaviour that clang's
+    # code generation happens to tolerate can change results here (D13: the descriptor counter's signed overflow)
+    "gcc":   ("-g -O2", True, True),
 }
+COMPILER = {"gcc": "gcc"}
 
 
 def log(*a):
@@ -95,7 +99,7 @@ def build(variant, extra_defs=""):
     """Build the four shared objects + helper libs + driver for a variant; returns dir."""
     flags, ledger, sse = VARIANTS[variant]
     key = _tree_hash([os.path.join(REPO, "src"), os.path.join(REPO, "include"), HARNESS],
-                     extra=variant + flags + extra_defs)
+                     extra=variant + flags + extra_defs + ("noguard" if variant == "gcc" else ""))
     out = os.path.join(BUILD, "%s-%s" % (variant, key))
     stamp = os.path.join(out, ".ok")
     if os.path.exists(stamp):
@@ -117,12 +121,15 @@ def build(variant, extra_defs=""):
     # (e.g. a scratch git worktree) does not have its own
     inc += " -I%s/fallback" % HARNESS
     ssef = "-msse2 -DINTEL_SSE2" if sse else ""
-    cf = "%s -fPIC -D_GNU_SOURCE=1 -std=gnu99 %s -DARCH_64 -D%s %s %s" % (flags, ssef, GUARD, extra_defs, inc)
+    # the gcc variant is the production configuration: hooks compiled out (they also keep gcc from inlining the
+    # registry walk into the descriptor allocator, which is what makes the overflow matter)
+    guard = "" if variant == "gcc" else "-D" + GUARD
+    cf = "%s -fPIC -D_GNU_SOURCE=1 -std=gnu99 %s -DARCH_64 %s %s %s" % (flags, ssef, guard, extra_defs, inc)
     red = ("-Dmalloc=verif_malloc -Dcalloc=verif_calloc -Dfree=verif_free "
            "-Dposix_memalign=verif_posix_memalign -Dstrdup=verif_strdup") if ledger else ""
     red += (" -Dpthread_rwlock_rdlock=verif_rdlock -Dpthread_rwlock_wrlock=verif_wrlock -Dpthread_rwlock_unlock=verif_rwunlock"
             " -Dpthread_mutex_lock=verif_mutex_lock -Dpthread_mutex_unlock=verif_mutex_unlock")
-    cc = "clang"
+    cc = COMPILER.get(variant, "clang")
     t0 = time.time()
     cmds = []
     base_flags = flags
@@ -168,11 +175,13 @@ def build(variant, extra_defs=""):
         os.unlink(o)
     os.symlink("liberasurecode.so.1", os.path.join(tmp, "liberasurecode.so"))
     # driver(s)
-    drv_flags = "%s -D_GNU_SOURCE=1 -std=gnu99 -D%s %s" % (flags, GUARD, inc)
+    drv_flags = "%s -D_GNU_SOURCE=1 -std=gnu99 %s %s" % (flags, guard, inc)
     for drv in sorted(glob.glob(os.path.join(HARNESS, "drv_*.c")) + glob.glob(os.path.join(HARNESS, "ecdrive.c"))):
         name = os.path.splitext(os.path.basename(drv))[0]
         if name == "ecdrive" and not ledger:
             continue                       # the scripted driver reads the ledger counters
+        if name != "ecdrive" and variant == "gcc":
+            continue                       # the thread drivers need the yield hooks
         sh("%s %s -o %s/%s %s -L%s -lerasurecode -l:libXorcode.so.1 %s -lverifsync -lpthread -lz -ldl "
            "-Wl,-rpath,%s" % (cc, drv_flags, tmp, name, drv, tmp, "-lverifledger" if ledger else "", out))
     open(os.path.join(tmp, ".ok"), "w").write("%s %.1fs\n" % (key, time.time() - t0))
